@@ -31,6 +31,24 @@ Proof. reflexivity. Qed.
 Theorem c01_step_ignores_liveness : forall wf p i, exists p' outs, cstep wf p i = (p', outs).
 Proof. intros. destruct (cstep wf p i) as [p' outs]. eauto. Qed.
 
+(* liveness and functional correctness together: take ANY schedule, then let the client and the
+   server run - in any order, any enabled step - until nothing more can happen.  That takes at most
+   [mu_sys] steps (8 per queued request + 3 per pending change + the phase of the exchange in
+   progress), and then every request ever issued has been handed exactly the server's reply to its
+   own bytes, in issue order, and nothing else.  (Fairness assumption: enabled steps are taken.) *)
+Theorem c01_all_answered_in_order : forall reply_fn sch n s',
+  Forall wf_label sch -> iruns reply_fn n (arun reply_fn sch) s' ->
+  (forall l, internal l = true -> astep reply_fn s' l = s') ->
+  a_replies s' = map (R reply_fn) (a_issued s') /\ (n <= mu_sys (arun reply_fn sch))%nat.
+Proof. exact all_answered_in_order. Qed.
+
+(* no deadlock: while anything is queued, in flight or pending, some step is enabled and it
+   strictly decreases the measure *)
+Theorem c01_progress : forall reply_fn s,
+  Inv reply_fn s -> (0 < mu_sys s)%nat ->
+  exists l, internal l = true /\ (mu_sys (astep reply_fn s l) < mu_sys s)%nat.
+Proof. exact positive_measure_can_step. Qed.
+
 Example c01_two_callers :
   let q1 := mkReq 1 (b "status" ++ [LF]) in
   let q2 := mkReq 2 (b "stats" ++ [LF]) in
@@ -42,3 +60,5 @@ Proof. vm_compute. auto. Qed.
 Print Assumptions c01_own_reply.
 Print Assumptions c01_issue_order.
 Print Assumptions c01_partial_failure.
+Print Assumptions c01_all_answered_in_order.
+Print Assumptions c01_progress.
